@@ -30,6 +30,16 @@ Fixpoint list_eqb {X} (e : X -> X -> bool) (a b : list X) : bool :=
   | _, _ => false
   end.
 
+(* insertion sort by a string key (stable); used to normalise lists whose order in the Rust value
+   comes from iterating a HashMap (type declarations of checked programs and everything after) *)
+Fixpoint insert_by {X} (key : X -> string) (x : X) (l : list X) : list X :=
+  match l with
+  | [] => [x]
+  | y :: r => if String.ltb (key x) (key y) then x :: l else y :: insert_by key x r
+  end.
+Definition sort_by {X} (key : X -> string) (l : list X) : list X :=
+  fold_left (fun acc x => insert_by key x acc) l [].
+
 Fixpoint sexp_eqb (a b : sexp) : bool :=
   match a, b with
   | A s, A t => String.eqb s t
